@@ -127,10 +127,27 @@ def specs():
             df_ = r.choice((0, 4, 5, 11, 16, 20, 21, 24, 19))
             return "%028X" % ((df_ << 107) | r.getrandbits(107))
         return o
-    pair = lambda m, o, r: (m, oth(o, r), 1, 2)  # noqa
-    pairref = lambda m, o, r: (m, oth(o, r), r.choice((1, 3)), 2, rlat(r), rlon(r))  # noqa
+    # time stamps in every documented form: ints, floats, datetimes, numpy datetime64 (two frames of the SAME parity are refused
+    # with RuntimeError whatever the stamps are - an error message that formats t1 - t0 must cope with a timedelta)
+    def stamps(r):
+        import datetime as _dt
+        import numpy as _np
+        k_ = r.randrange(6)
+        if k_ < 2:
+            return (r.choice((1, 3)), 2)
+        if k_ == 2:
+            return (1.5, 0.25)
+        if k_ == 3:
+            b_ = _dt.datetime(2024, 1, 1, 12, 0, 0)
+            return (b_, b_ + _dt.timedelta(seconds=r.choice((-2, 3))))
+        if k_ == 4:
+            b_ = _dt.datetime(2024, 1, 1, 12, tzinfo=_dt.timezone.utc)
+            return (b_ + _dt.timedelta(seconds=1), b_)
+        return (_np.datetime64("2024-01-01T12:00:00"), _np.datetime64("2024-01-01T12:00:03"))
+    pair = lambda m, o, r: (m, oth(o, r)) + stamps(r)  # noqa
+    pairref = lambda m, o, r: (m, oth(o, r)) + stamps(r) + (rlat(r), rlon(r))  # noqa
     # position(): lat_ref / lon_ref are documented None | float - any combination of given / omitted halves is a legal call
-    posref = lambda m, o, r: (m, oth(o, r), r.choice((1, 3)), 2) + r.choice((  # noqa
+    posref = lambda m, o, r: (m, oth(o, r)) + stamps(r) + r.choice((  # noqa
         (rlat(r), rlon(r)), (rlat(r), rlon(r)), (rlat(r),), (None, rlon(r)), (rlat(r), None), ()))
     add(a + "position", adsb.position, latlon, tcin(*POS), posref)
     add(a + "airborne_position", adsb.airborne_position, latlon, None, pair)
